@@ -25,7 +25,11 @@ def corpus():
     X = chart_text(res=192, sync=sync, events=ev,
                    tracks={"HardDrums": ["0 = N 1 0", "64 = N 2 7", "64 = N 3 0"], "ExpertSingle": ["0 = N 0 0", "0 = N 5 0"]})  # forced first note
     Y = "[Song]\n{\n  Name = \"no resolution\"\n}\n[SyncTrack]\n{\n}\n[Events]\n{\n}\n"
-    texts = {"A": A, "B": B, "C": C, "D": D, "X": X, "Y": Y}
+    # Z: every section also contains lines that are valid in ANOTHER section of A (verbatim, same indentation):
+    # unparsable where they stand, they must not influence how the same text is read elsewhere or later
+    Z = chart_text(res=192, song=['Name = "Z"'], sync=sync + g_a[:4] + ev[:1], events=ev + g_a[4:8] + sync[1:3],
+                   tracks={"ExpertSingle": g_a[:6] + sync[1:2] + ev[1:2], "HardDrums": ["0 = N 1 0", "0 = B 120000", '64 = E "lyric b"']})
+    texts = {"A": A, "B": B, "C": C, "D": D, "X": X, "Y": Y, "Z": Z}
     # the same text under a selection is another 'text' of the corpus
     texts["As"] = A
     wants = {"As": [["DRUMS", "HARD"], ["KEYS", "EASY"]]}
@@ -80,7 +84,7 @@ def run(ctx):
         seq = th[sorted(th)[0]] if isinstance(th, dict) else th[0]
         if seq:
             seqs.append(seq)
-    seqs += [["As", "A", "As"], ["A", "As"], ["X", "As", "A"], ["Y", "X", "Y", "A", "B", "A"], ["B", "A", "B", "A", "C", "D", "C"]]
+    seqs += [["Z", "A"], ["Z", "B", "A"], ["A", "Z", "A"], ["Z", "X", "Z", "A"], ["Z", "C", "D"], ["As", "A", "As"], ["A", "As"], ["X", "As", "A"], ["Y", "X", "Y", "A", "B", "A"], ["B", "A", "B", "A", "C", "D", "C"]]
     for _ in range(ctx.pick(40, 600)):
         seqs.append([r.choice(names) for _ in range(r.randrange(4, 9))])
     with cf.ThreadPoolExecutor(max_workers=WORKERS) as ex:
